@@ -27,7 +27,12 @@ def _open(name, mode='r', *a, **k):
     return io.BytesIO(_FILES[name])
 
 
-C.open = _open
+import os as _os
+if not _os.environ.get('CCT_XH_REALFILES'):
+    # symbolic search: file layer in memory.  Replays (xhair/run.py) set CCT_XH_REALFILES=1 and use REAL files in a scratch
+    # working directory, so that a counterexample is only reported when it reproduces on the real file system (code that
+    # consults os.stat / os.path / os.replace is then served correctly instead of tripping over the in-memory layer)
+    C.open = _open
 
 
 def _content(name):
